@@ -261,6 +261,9 @@ func checkC19(p *Prog, l *Ledger) {
 	// status 65 iff a syntax error: the parser's reporter writes its diagnostic and raises the flag on its only path (the
 	// `error` primitive of C08/S0) — a reporter that stays silent for some position lets a rejected text run
 	l.AsOnlyWhere(map[string]string{"C08/S0-cursor-primitives": "C19/S2-status-65/reported"}, func(o *Obligation) bool { return o.Construct == "Parser.error" }, func() { checkParserPrimitives(p, l, "C08/S0-cursor-primitives") })
+	// 65 iff a lexical error: the scanner sees the whole text — its cursor primitives end the input at the end of the text,
+	// nowhere else (C09's primitive rule: a NUL sentinel would end a script at the first U+0000)
+	l.AsOnly(map[string]string{"C09/S0-cursor-primitives": "C19/S1-lexical-errors/cursor-primitives"}, func() { checkLexPrimitives(p, l, "C09/S0-cursor-primitives") })
 	// stdout and stderr carry the program's text and the diagnostics as they are: nothing the program supplies is used
 	// as a format string
 	checkFormatStrings(p, l, "C19/S3-streams/format-strings")
@@ -287,6 +290,20 @@ func checkRunPipeline(p *Prog, l *Ledger, rule string) {
 			switch e.Op {
 			case "call":
 				switch {
+				case strings.HasSuffix(e.Args[0], ".NewScanner"):
+					// the text scanned is the text given: rune for rune (a conversion to []rune is the only thing that may
+					// happen to it — rewriting line ends, trimming or normalising changes which line a token is on or which
+					// characters the program contains)
+					src := "source"
+					if rf := p.Func("main.run"); rf != nil && len(rf.Params) > 0 {
+						src = rf.Params[0].Name()
+					}
+					if len(e.Args) < 2 || (e.Args[1] != src && e.Args[1] != "conv:[]rune("+src+")") {
+						bad = true
+						l.Violate(rule, "main.run#source", e.Pos, "the scanner is not given the program text as it is but "+strings.Join(e.Args[1:], ",")+": positions, line numbers or characters of the text the user wrote are altered before it is scanned")
+					} else {
+						l.Discharge(rule, "main.run#source", e.Pos, "the scanner gets the text unchanged", true)
+					}
 				case strings.HasSuffix(e.Args[0], ".ScanTokens"):
 					state["scan"] = true
 				case strings.HasSuffix(e.Args[0], ").Parse"):
